@@ -76,7 +76,9 @@ retry_from_root:
     base_node* root = ti->load_root_ptr();
 
     if (root == nullptr) { return status::OK_ROOT_IS_NULL; }
-    std::string_view traverse_key_view{l_key};
+    // an INF left endpoint ignores the key passed with it (see kvs.h)
+    std::string_view traverse_key_view{
+            l_end == scan_endpoint::INF ? std::string_view{} : l_key};
 
     /**
      * prepare key_slice
